@@ -18,6 +18,9 @@
 //!                a fresh in-memory stream becomes the client's writer, a new reader task is spawned for it; the older
 //!                connections and their readers stay alive.  R/G/W/WE act on the newest connection
 //!   CF           connect() is called and fails (the client's address is a closed loopback port): real TcpStream::connect
+//!   BB <kind> <n> <hop>  the stream ends as with B <kind> and, WITHOUT letting any other task run in between, n requests
+//!                (hop, hop+1, ...) are sent back to back from one task: the reader's shutdown races the sends at
+//!                whatever points the runtime makes the sender yield
 //!   SEL <c>      the peer events P/PS/PG/PT/B that follow act on connection number c (0 = the first; default: the newest)
 //! Output: one token per send, in order: GOT:<hop>:<e2e> | ERR | PENDING | DROPPED, then " READER " alive|stopped
 
@@ -171,6 +174,7 @@ enum Ev {
     CA,
     CF,
     Sel(usize),
+    BB(String, usize, u32),
     P(u32, Option<usize>, u64),
     PT(u32, usize),
     B(String),
@@ -228,6 +232,11 @@ pub fn run(st: &State, t: &mut Toks) -> PResult<String> {
             "CA" => Ev::CA,
             "CF" => Ev::CF,
             "SEL" => Ev::Sel(t.usize_dec()?),
+            "BB" => {
+                let k = t.next()?.to_string();
+                let n = t.usize_dec()?;
+                Ev::BB(k, n, t.u32()?)
+            }
             "PT" => {
                 let h = t.u32()?;
                 Ev::PT(h, t.u64()? as usize)
@@ -342,6 +351,25 @@ pub fn run(st: &State, t: &mut Toks) -> PResult<String> {
                             conns.push((duplex, reader_done));
                             emitted.push(0);
                             sel = conns.len() - 1;
+                        }
+                    }
+                    Ev::BB(kind, n, hop0) => {
+                        if let Some((idx, jh)) = inflight.take() {
+                            conns[conns.len() - 1].0.allow(None);
+                            results[idx] = Some(jh.await.unwrap_or(Err(())));
+                        }
+                        conns[conns.len() - 1].0.allow(None);
+                        let mut c = client.lock().await;
+                        match kind.as_str() {
+                            "reset" => conns[sel].0.end(true),
+                            "garbage" => conns[sel].0.push(&[1, 0, 0, 0, 9, 9, 9, 9]),
+                            _ => conns[sel].0.end(false),
+                        }
+                        for i in 0..n {
+                            let mut req = DiameterMessage::new(CommandCode::CreditControl, ApplicationId::CreditControl, 0x80, hop0.wrapping_add(i as u32), 7, Arc::clone(&dict));
+                            req.add_avp(264, None, M, Identity::new("host.example.com").into());
+                            let r = c.send_message(req).await.map_err(|_| ());
+                            results.push(Some(r));
                         }
                     }
                     Ev::Sel(c) => {
